@@ -103,6 +103,10 @@ theorem exec_leaves_no_state_behind (fuel ti : Nat) (ctx : Env) (σ : ES) :
     template, the set, a package variable or the caller's context -/
 theorem gen_exec_writes_none : Gen.execWrites = [] := by decide
 
+/-- … and none of them mentions a package-level object of one of the engine's own struct types
+    (an error or value object that would carry over from one execution to the next) -/
+theorem gen_no_shared_objects : Gen.execSharedObjects = [] := by decide
+
 theorem gen_call_graph_anchors : Gen.execReachableAnchors.all (·.2) = true := by decide
 
 /-- the reachable set is not degenerate -/
